@@ -22,6 +22,16 @@ matching semantics *as a whole* are declined.  Decided (shape of the code and of
          before any conversion; arity/optionality flags reach build_converter under the right keywords;
   R05.f  segment structure: for every operator x type pattern x separator, the instantiated _SEG_TMPL is
          language-equal (NFA product) to (SEP TYPE)QUANT built independently from the documented meaning.
+  R05.g  the joined list: created empty by the call, one element per part of pattern.split('/') -- the literal part
+         itself, the segment of a binding glued (+=) to the element before it -- nothing else touches it; in strict mode it
+         is joined whole, outside strict mode without its last element exactly when that is empty (followed by symbolic
+         evaluation per mode: ``x[:-1]`` views, pop() / del, copies under other names); the converter map is created
+         empty by the call, every binding is recorded, the duplicate test looks at every binding;
+  R05.i  the inherit_slashes option (which decides the mode a route is compiled for) is, wherever a function hands it on to another
+         object's bind() / bind_all(), read from a declaration, never a literal that would silence the declaring object's own default;
+  R05.h  match_path: the mapping a match returns holds, for every (name, converter) of self.converters, the converter applied
+         once to the text captured for the group of that name (loop, dict comprehension, dict of pairs); the groups of the
+         match are read only where the match is known to be one.
 Declined: greedy/backtracking interaction between adjacent bindings, slash tolerance over all paths,
 conversion values.
 
@@ -39,6 +49,10 @@ How the code is read (so that behaviour-preserving rewrites stay silent):
   * a local bound once to a plain copy of another local (``op = raw_op``, also what inlining a helper that returns
     ``(name, op, type_name)`` leaves behind) stands for what the other held *when the copy was taken*: the ':'
     normalisation and the default type must have been applied on every path to the copy;
+  * build_converter is read as a *model* (``_ConvModel``): which function runs for a multi / single binding and how it spells the
+    converter, the optional flag and the captured text -- two closures, or an instance of a private callable class whose
+    __init__ stores the flags once (the choice made in __init__ through an attribute bound to one of two methods, or at every
+    call on a stored flag, the arms written out or in methods);
   * converters: conditions are compared as sets of facts (``optional and not value`` == ``not value and
     optional`` == nested ifs), single-assignment temporaries are inlined, the list of conversions may be a
     comprehension, ``list(map(...))`` or an explicit append loop.
@@ -241,6 +255,12 @@ def _bound_var(mod, node):
     return None
 
 
+def _is_empty_display(e, kind):
+    if kind == 'list':
+        return (isinstance(e, ast.List) and not e.elts) or (isinstance(e, ast.Call) and norm(e) == 'list()')
+    return (isinstance(e, ast.Dict) and not e.keys) or (isinstance(e, ast.Call) and norm(e) == 'dict()')
+
+
 # ---- symbolic evaluation of the string handed to re.compile ---------------------------------------
 
 def _lit(s):
@@ -289,13 +309,33 @@ def _show(v):
     return '<%s>' % (v[1],)
 
 
+def _is_minus_one(e):
+    return isinstance(e, ast.UnaryOp) and isinstance(e.op, ast.USub) and isinstance(e.operand, ast.Constant) and e.operand.value == 1
+
+
+def _drops_last(st):
+    """name of the list a statement removes the last element from: ``x.pop()`` / ``x.pop(-1)`` / ``del x[-1]``"""
+    if isinstance(st, ast.Expr) and isinstance(st.value, ast.Call) and isinstance(st.value.func, ast.Attribute) and st.value.func.attr == 'pop' and \
+            isinstance(st.value.func.value, ast.Name) and not st.value.keywords and \
+            (not st.value.args or (len(st.value.args) == 1 and _is_minus_one(st.value.args[0]))):
+        return st.value.func.value.id
+    if isinstance(st, ast.Delete) and len(st.targets) == 1 and isinstance(st.targets[0], ast.Subscript) and isinstance(st.targets[0].value, ast.Name) and \
+            _is_minus_one(st.targets[0].slice):
+        return st.targets[0].value.id
+    return None
+
+
 class _SymExec(object):
     """Path-sensitive symbolic evaluation of a function body under one assumption about the slash mode.  Tracked
     values are immutable (strings, booleans, compiled regexes, tuples of them), so only re-binding matters:
     loops and statements that are not interpreted forget every name they bind.  Values:
-      ('s', tokens)   string; tokens: ('lit', text) | ('join', separator tokens, list expression) | ('sym', text)
+      ('s', tokens)   string; tokens: ('lit', text) | ('join', separator tokens, list expression[, (list, trims)]) | ('sym', text)
       ('b', bool)     known truth value        ('re', value, plain)   re.compile(value), plain = no flags
-      ('t', values)   tuple                    ('?', text)            unknown"""
+      ('t', values)   tuple                    ('?', text)            unknown
+      ('L', list, trims)   the list object created by the display ``list`` (identified by its node), seen without its last
+                      ``trims`` elements (``x[:-1]`` is a new view, ``x.pop()`` / ``del x[-1]`` changes the object for every name
+                      that holds it); what a loop puts into the list is not tracked here
+    Statements listed in ``watch`` leave a trace ``env['$seen'] = ((stmt, env at the statement), ...)`` on the paths that run them."""
 
     def __init__(self, repo, fi, mode_param, strict_value, strict):
         self.repo, self.fi, self.mod = repo, fi, fi.mod
@@ -309,6 +349,7 @@ class _SymExec(object):
             if isinstance(x, ast.Nonlocal):
                 raise AnalysisError('%s: nonlocal re-binding is not followed' % fi.qualname)
         self.budget = 4000
+        self.watch = ()
 
     # -- expressions
     def _is_strict_const(self, e):
@@ -361,6 +402,16 @@ class _SymExec(object):
             return ('?', short(e, 40))
         if isinstance(e, ast.Tuple):
             return ('t', tuple(self.ev(x, env) for x in e.elts))
+        if (isinstance(e, ast.List) and not e.elts) or (isinstance(e, ast.Call) and isinstance(e.func, ast.Name) and e.func.id == 'list' and
+                                                       not e.args and not e.keywords and 'list' not in self.locals):
+            return ('L', id(e), 0)
+        if isinstance(e, ast.Subscript) and isinstance(e.slice, ast.Slice):
+            v = self.ev(e.value, env)
+            sl = e.slice
+            if v[0] == 'L' and sl.lower is None and sl.step is None and isinstance(sl.upper, ast.UnaryOp) and isinstance(sl.upper.op, ast.USub) and \
+                    isinstance(sl.upper.operand, ast.Constant) and sl.upper.operand.value == 1:
+                return ('L', v[1], v[2] + 1)
+            return ('?', short(e, 40))
         if isinstance(e, ast.BinOp) and isinstance(e.op, ast.Add):
             l, r = self.ev(e.left, env), self.ev(e.right, env)
             if l[0] == 's' or r[0] == 's':
@@ -387,6 +438,9 @@ class _SymExec(object):
                 a = e.args[0]
                 base = a.value if isinstance(a, ast.Subscript) and isinstance(a.slice, ast.Slice) else a
                 if _toks(sepv) is not None and isinstance(base, ast.Name):
+                    lv = self.ev(a, env)
+                    if lv[0] == 'L':
+                        return ('s', (('join', _toks(sepv), norm(a), (lv[1], lv[2])),))
                     return ('s', (('join', _toks(sepv), norm(a)),))
                 if _toks(sepv) is not None and isinstance(a, (ast.List, ast.Tuple)) and not any(isinstance(x, ast.Starred) for x in a.elts):
                     parts = []          # ''.join(['^', body, tail, '$'])
@@ -497,6 +551,16 @@ class _SymExec(object):
         walrus = set(x.target.id for x in ast.walk(st) if isinstance(x, ast.NamedExpr) and isinstance(x.target, ast.Name))
         if walrus:
             env = self._forget(env, walrus)
+        if any(st is w for w in self.watch):
+            env = dict(env)
+            env['$seen'] = env.get('$seen', ()) + ((st, dict(env)),)
+        dropped = _drops_last(st)
+        if dropped is not None and env.get(dropped, ('?',))[0] == 'L':
+            # x.pop() / del x[-1]: the object loses its last element, under every name that holds it
+            obj = env[dropped]
+            env = dict((k, ('L', v[1], v[2] + 1) if isinstance(v, tuple) and v[:2] == obj[:2] and not k.startswith('$') else v) for k, v in env.items())
+            yield ('fall', None, env)
+            return
         if isinstance(st, ast.Assign) or (isinstance(st, ast.AnnAssign) and st.value is not None):
             targets = st.targets if isinstance(st, ast.Assign) else [st.target]
             val = self.ev(st.value, env)
@@ -604,9 +668,12 @@ def check_match_path_no_raise(rep, rule):
         # what is iterated, seen through single-assignment temporaries (pairs = self.converters.items())
         if isinstance(n, (ast.For, ast.comprehension)) and 'converters' in norm(_inline(mp, n.iter)):
             conv_vars |= set(x.id for x in ast.walk(n.target) if isinstance(x, ast.Name))
-    conv_calls = [c for c in ast.walk(mp.node) if isinstance(c, ast.Call) and
-                  ((isinstance(c.func, ast.Name) and c.func.id in conv_vars) or
-                   (isinstance(c.func, ast.Subscript) and 'converters' in norm(c.func.value)))]
+    def is_converter(f):
+        # a variable of the loop over the converters, a converter looked up in place, or a local naming one of them
+        if isinstance(f, ast.Name) and f.id not in conv_vars:
+            f = _inline(mp, f, stable=tuple(conv_vars))
+        return (isinstance(f, ast.Name) and f.id in conv_vars) or (isinstance(f, ast.Subscript) and 'converters' in norm(f.value))
+    conv_calls = [c for c in ast.walk(mp.node) if isinstance(c, ast.Call) and is_converter(c.func)]
     if not conv_calls:
         raise AnalysisError('match_path: converter call not found')
     for c in conv_calls:
@@ -717,6 +784,12 @@ def _type_tables(rep):
                      if not isinstance(st, (ast.FunctionDef, ast.AsyncFunctionDef, ast.ClassDef)))
     rep.check('R05.a', '%s::registration loop' % ROUTE, ok, 'every DEFAULT_CONVS entry is registered as (name, func, pattern)' if ok else
               'DEFAULT_CONVS is not registered entry by entry in order', route, loops[0] if loops else None)
+    # the two maps are two objects: each name is bound once, to an empty dict display of its own
+    tv = [route.assigns.get(t, []) for t in TYPE_TABLES]
+    ok = all(len(v) == 1 and isinstance(v[0], ast.expr) and _is_empty_display(v[0], 'dict') for v in tv) and tv[0][0] is not tv[1][0]
+    rep.check('R05.a', '%s::type maps are two dicts' % ROUTE, ok, 'TYPE_CONV_MAP and TYPE_PATT_MAP are two empty dicts of their own' if ok else
+              'TYPE_CONV_MAP and TYPE_PATT_MAP are not two separately created empty dicts (one object under both names receives converter and pattern '
+              'under the same key: the pattern overwrites the converter)', route, anchor)
     for name in PATTERN_NAMES:
         p = pats[name]
         rep.check('R05.a', '%s::%s::no slash' % (ROUTE, name), not regexq.can_consume(p, '/'),
@@ -735,7 +808,7 @@ def _type_tables(rep):
         ok, w = regexq.included(a, b)
         rep.check('R05.a', '%s::inclusion::%s' % (ROUTE, label), ok, 'automata inclusion holds: %s' % label if ok else
                   'language inclusion fails (%s): %r is matched by %r but not by %r' % (label, w, a, b), route)
-    rep.floor('R05.a', 18)
+    rep.floor('R05.a', 19)
     return convs, pats
 
 
@@ -778,10 +851,16 @@ def _roles(rep):
     R.opvar = R.kwt.get('arity') if isinstance(R.kw.get('arity'), ast.Name) else None
     # table lookups: table name -> [(Subscript node, key text, local it is bound to)]
     R.lookups = dict((tab, []) for tab in TYPE_TABLES + OP_TABLES)
+    R.soft = {}      # id(lookup node) -> default expression or None: lookups written ``TABLE.get(key[, default])``
     for n in walk_body(cp.node):
         if isinstance(n, ast.Subscript) and isinstance(n.ctx, ast.Load) and isinstance(n.value, ast.Name) and \
                 n.value.id in TYPE_TABLES + OP_TABLES and n.value.id not in _all_params(cp) and not _stores(cp.node, n.value.id):
             R.lookups.setdefault(n.value.id, []).append((n, norm(n.slice), _bound_var(route, n)))
+        elif isinstance(n, ast.Call) and isinstance(n.func, ast.Attribute) and n.func.attr == 'get' and isinstance(n.func.value, ast.Name) and \
+                n.func.value.id in TYPE_TABLES + OP_TABLES and n.func.value.id not in _all_params(cp) and not _stores(cp.node, n.func.value.id) and \
+                1 <= len(n.args) <= 2 and not n.keywords:
+            R.lookups.setdefault(n.func.value.id, []).append((n, norm(n.args[0]), _bound_var(route, n)))
+            R.soft[id(n)] = n.args[1] if len(n.args) == 2 else None
 
     missing = [tab for tab in TYPE_TABLES + OP_TABLES if not R.lookups[tab]]
     if missing:
@@ -797,6 +876,8 @@ def _roles(rep):
             return None, None
         if isinstance(expr, ast.Subscript) and isinstance(expr.value, ast.Name) and expr.value.id in R.lookups:
             return expr.value.id, norm(expr.slice)
+        if isinstance(expr, ast.Call) and id(expr) in R.soft:
+            return expr.func.value.id, norm(expr.args[0])
         return None, None
     R.table_of = table_of
     bc = [c for c in walk_body(cp.node) if isinstance(c, ast.Call) and call_name(c) == 'build_converter']
@@ -926,6 +1007,22 @@ def _rule_c(rep, R):
             return None
         rs = [x for x in ast.walk(h) if isinstance(x, ast.Raise)]
         return h if rs and all(raise_type(x) == 'InvalidPattern' for x in rs) else None
+    rejected_soft = set()
+    in_loop = set(id(x) for x in ast.walk(R.loop)) if R.loop is not None else set()
+    loopvar = R.loop.target.id if isinstance(R.loop, ast.For) and isinstance(R.loop.target, ast.Name) else None
+
+    def only_these(cs, var):
+        """inside the loop the raise stands under nothing but "the looked-up value is None" (and the part being a binding)"""
+        for t, pol in cs:
+            if id(t) not in in_loop or isinstance(t, ast.BoolOp) or implies_absent([(t, pol)], var):
+                continue
+            if loopvar is not None and implies_present([(_inline(cp, t, stable=(loopvar,)), pol)], 'BINDING.match(%s)' % loopvar):
+                continue
+            if any((norm(t), not pol) in [(norm(t2), p2) for t2, p2 in conds(cp, r2)] for r2 in rz):
+                continue        # what is left over from another rejection: that one raises under the opposite fact
+            return False
+        return True
+    none_default = lambda node: R.soft.get(id(node)) is None or (isinstance(R.soft[id(node)], ast.Constant) and R.soft[id(node)].value is None)
     for r in rz:
         cs = conds(cp, r)
         tries = [(t, part) for t, part in enclosing_tries(route, r, cp.node)]
@@ -951,9 +1048,26 @@ def _rule_c(rep, R):
             for label, tables in sorted(families.items()):
                 if absent_from(cs, tables) is not None:
                     found[label] = r
+                # ... or the result of ``TABLE.get(key)`` found to be None:  v = TABLE.get(key); if v is None: raise InvalidPattern(...)
+                for tab in tables:
+                    for node, key, var in R.lookups.get(tab, []):
+                        if id(node) in R.soft and none_default(node) and var is not None and _stores(cp.node, var) == 1 and implies_absent(cs, var) and \
+                                only_these(cs, var):
+                            found[label] = r
+                            rejected_soft.add(id(node))
     for label in ('leading slash', "'//'", 'duplicate binding', 'unknown type', 'unknown operator'):
         rep.check('R05.c', fkey(cp, 'rejects: ' + label), label in found, 'InvalidPattern is raised for: %s' % label if label in found else
                   'no guarded "raise InvalidPattern" for: %s' % label, route, found.get(label, cp.node))
+    # the two tests of the pattern as a whole reject for every pattern and mode: they stand under no other condition
+    def whole_pattern_fact(t):
+        tx = norm(t)
+        return tx in ("%s.startswith('/')" % pvar, "'//' in %s" % pvar, "'//' not in %s" % pvar) or \
+            tx in ("%s[:1] != '/'" % pvar, "%s[0:1] != '/'" % pvar, "%s[:1] == '/'" % pvar, "%s[0:1] == '/'" % pvar)
+    for label in ('leading slash', "'//'"):
+        if label in found:
+            extra = [(t, pol) for t, pol in conds(cp, found[label]) if not isinstance(t, ast.BoolOp) and not whole_pattern_fact(t)]
+            rep.check('R05.c', fkey(cp, 'rejects unconditionally: ' + label), not extra, 'the test applies to every pattern in every mode' if not extra else
+                      'the rejection (%s) is only made when also %s' % (label, ', '.join(cond_texts(extra))), route, found[label])
     # every table lookup can only fail as InvalidPattern: it runs under a KeyError handler that always raises InvalidPattern, or after a
     # membership test of the same key, or after such a lookup of the same key in the sister table (both tables have the same keys:
     # R05.a registration / R05.b operator tables keys)
@@ -961,7 +1075,9 @@ def _rule_c(rep, R):
     start = ccfg.nodes_of(R.loop) if R.loop is not None and ccfg.nodes_of(R.loop) else ccfg.entry
     for label, tables in sorted(families.items()):
         looks = [(node, key) for tab in tables for node, key, var in R.lookups.get(tab, [])]
-        safe = [(node, key) for node, key in looks if rejecting_handler(node) is not None or key in present_in(conds(cp, node), tables)]
+        # (a ``.get`` never raises KeyError: it is safe after a membership test, or when its None result is rejected)
+        safe = [(node, key) for node, key in looks if (id(node) not in R.soft and rejecting_handler(node) is not None) or
+                key in present_in(conds(cp, node), tables) or id(node) in rejected_soft]
         todo = [x for x in looks if x not in safe]
         progress = True
         while todo and progress:
@@ -974,8 +1090,10 @@ def _rule_c(rep, R):
                     progress = True
         ok = bool(looks) and not todo
         rep.check('R05.c', fkey(cp, 'lookups guarded: ' + label), ok, 'every lookup in %s fails as InvalidPattern' % ' / '.join(tables) if ok else
-                  'a lookup in %s can raise a bare KeyError (not under the rejecting handler / membership test): %s' %
-                  (' / '.join(tables), short(stmt_of(route, todo[0][0]), 60) if todo else 'no lookup found'), route, todo[0][0] if todo else cp.node)
+                  'a lookup in %s %s: %s' %
+                  (' / '.join(tables), 'with a default accepts an unknown key silently' if todo and id(todo[0][0]) in R.soft else
+                   'can raise a bare KeyError (not under the rejecting handler / membership test)',
+                   short(stmt_of(route, todo[0][0]), 60) if todo else 'no lookup found'), route, todo[0][0] if todo else cp.node)
     dup_store = _item_stores(cp, VCM)
     ok = len(dup_store) == 1 and 'duplicate binding' in found
     rep.check('R05.c', fkey(cp, 'bindings recorded'), ok, 'every binding is recorded, so a second use of the name is seen' if ok else
@@ -985,14 +1103,26 @@ def _rule_c(rep, R):
     cc = [stmt_of(route, c) for c in walk_body(ri.node) if isinstance(c, ast.Call) and call_name(c) == '_compile_path_pattern'
           and c.args and len(ri.params()) > 1 and norm(c.args[0]) == ri.params()[1]]
     pst = [s for s in stmts_of(ri.node) if isinstance(s, ast.Assign) and norm(s.targets[0]) == 'self.pattern']
+    def swallowed(st):
+        """a handler around the compile call that catches InvalidPattern (by that name or as one of its bases) and does not always re-raise"""
+        from ..astutil import exc_names
+        for tr, part in enclosing_tries(route, st, ri.node):
+            if part != 'body':
+                continue
+            for h in tr.handlers:
+                names = exc_names(h.type)
+                if names is None or set(n.rpartition('.')[2] for n in names) & {'InvalidPattern', 'ValueError', 'Exception', 'BaseException'}:
+                    if not handler_reraises_always(ri, h):
+                        return True
+        return False
     ok = len(cc) == 1 and len(pst) == 1 and rcfg.must_pass(rcfg.nodes_of(cc[0]), rcfg.entry, rcfg.exit, normal_only=True) and \
-        protected_by(ri, cc[0], 'ValueError') is None
+        protected_by(ri, cc[0], 'ValueError') is None and not swallowed(cc[0])
     rep.check('R05.c', fkey(ri, 'pattern compiled at construction'), ok, 'Route.__init__ compiles (validates) the pattern on every normal path; InvalidPattern propagates' if ok else
               'Route.__init__ does not always validate the pattern (or swallows InvalidPattern)', route, cc[0] if cc else ri.node)
     k, m, ip = repo.resolve(route, 'InvalidPattern')
     ok = k == 'class' and repo.is_subclass(ip, 'ValueError')
     rep.check('R05.c', '%s::InvalidPattern' % ROUTE, ok, 'InvalidPattern is a ValueError' if ok else 'InvalidPattern is no longer a ValueError', route)
-    rep.floor('R05.c', 10)
+    rep.floor('R05.c', 12)
 
 
 # ---- R05.d ------------------------------------------------------------------------------------------
@@ -1082,26 +1212,38 @@ def _rule_d_matching(rep):
     check_bound_regex(rep, 'R05.d')
     m_st = [s for s in stmts_of(mp.node) if isinstance(s, ast.Assign) and isinstance(s.value, ast.Call) and norm(s.value.func) == 'self.regex.match'
             and len(s.targets) == 1 and isinstance(s.targets[0], ast.Name)]
+    in_handler = set(id(x) for n in ast.walk(mp.node) if isinstance(n, ast.ExceptHandler) for x in ast.walk(n))
     ok = len(m_st) == 1 and _stores(mp.node, m_st[0].targets[0].id) == 1 and \
-        any(isinstance(r.value, ast.Constant) and r.value.value is None and
+        any(isinstance(r.value, ast.Constant) and r.value.value is None and id(r) not in in_handler and
             implies_absent(conds(mp, r), norm(m_st[0].targets[0])) for r in returns_of(mp) if r.value is not None)
     rep.check('R05.d', fkey(mp, 'no match => None'), ok, 'a failed regex match returns None' if ok else 'match_path does not return None for a failed match', route, mp.node)
+    if len(m_st) == 1:
+        # ... before the match object is looked into: its groups are read only where it is known to be a match
+        mvar = m_st[0].targets[0].id
+        reads = [n for n in walk_body(mp.node) if isinstance(n, (ast.Attribute, ast.Subscript)) and isinstance(n.ctx, ast.Load) and
+                 isinstance(n.value, ast.Name) and n.value.id == mvar]
+        bad = [n for n in reads if not implies_present(conds(mp, n), mvar)]
+        ok = bool(reads) and not bad
+        rep.check('R05.d', fkey(mp, 'groups read from a match'), ok, 'the groups are read only after the match was found to be one' if ok else
+                  'match_path looks into the result of regex.match where it may be None (%s): a path that does not match raises AttributeError / '
+                  'TypeError instead of returning None' % (short(stmt_of(route, bad[0]), 50) if bad else 'no read of the match found'), route, bad[0] if bad else mp.node)
     ok = m_st and len(mp.params()) > 1 and len(m_st[0].value.args) == 1 and norm(m_st[0].value.args[0]) == mp.params()[1] and not _stores(mp.node, mp.params()[1])
     rep.check('R05.d', fkey(mp, 'matches the path'), bool(ok), 'the compiled regex is matched against the given path' if ok else 'regex.match is not applied to the path', route, mp.node)
 
 
 # ---- R05.e ------------------------------------------------------------------------------------------
 
-def _optional_empty(fi, ret, v):
-    """The return is taken exactly under the facts "optional" and "value is empty" (in either order / nesting)."""
-    cs = conds(fi, ret)
-    if not (has_cond(cs, lambda t: norm(t) == 'optional', True) and implies_absent(cs, v)):
+def _optional_empty(fi, ret, v, opt='optional', flag=None):
+    """The return is taken exactly under the facts "optional" and "value is empty" (in either order / nesting); ``flag``:
+    text of the arity test that selects the branch of the function the return belongs to (not one of the two facts)."""
+    cs = [(t, pol) for t, pol in conds(fi, ret) if flag is None or norm(t) != flag]
+    if not (has_cond(cs, lambda t: norm(t) == opt, True) and implies_absent(cs, v)):
         return False
     # ... and under nothing else: every other condition on the path is a conjunction these two facts were split from
     for t, pol in cs:
         if isinstance(t, ast.BoolOp) and ((isinstance(t.op, ast.And) and pol is True) or (isinstance(t.op, ast.Or) and pol is False)):
             continue
-        if (norm(t) == 'optional' and pol is True) or implies_absent([(t, pol)], v):
+        if (norm(t) == opt and pol is True) or implies_absent([(t, pol)], v):
             continue
         return False
     return True
@@ -1123,6 +1265,10 @@ def _list_of_conversions(fi, outer, ret, v, conv):
             return False
         loop = fi.mod.parents.get(appends[0])
         body = fi.node.body
+        holder = fi.mod.parents.get(ret)      # the statement list the return stands in (the function's, or one arm of the arity test)
+        for fld in ('body', 'orelse'):
+            if holder is not fi.node and isinstance(getattr(holder, fld, None), list) and ret in getattr(holder, fld):
+                body = getattr(holder, fld)
         init = [st for st in body if isinstance(st, (ast.Assign, ast.AnnAssign)) and L in names_stored(st)]
         if len(init) != 1 or loop not in body or body.index(init[0]) > body.index(loop):
             return False        # the accumulator is created once, before the loop, at the top level of the converter
@@ -1145,51 +1291,253 @@ def _list_of_conversions(fi, outer, ret, v, conv):
     return norm(val) == 'list(map(%s, %s))' % (conv, want_iter)
 
 
+class _ConvModel(object):
+    """What build_converter returns, reduced to its roles: the function run for a multi binding (``mf``) and the one run
+    for a single binding (``sf``), how each of them spells the converter (``conv(f)``), the optional flag (``opt(f)``)
+    and the captured text (``val(f)``), and whether the choice between them is made on ``multi`` (``selection``)."""
+    outer = None
+
+
+def _closure_model(route, bcv, bp):
+    """Two nested functions closing over build_converter's parameters, one returned under ``multi``, the other otherwise."""
+    conv = bp[0]
+    inner = dict((f.name, f) for q, f in route.functions.items() if q.startswith(bcv.qualname + '.') and q.count('.') == bcv.qualname.count('.') + 1)
+    rets = returns_of(bcv)
+    if len(rets) != 2 or not all(r.value is not None and norm(r.value) in inner for r in rets) or len(set(norm(r.value) for r in rets)) != 2:
+        return None
+    M = _ConvModel()
+    M.form, M.outer, M.flag = 'two closures', bcv, None
+    stable_outer = all(_stores(bcv.node, n) == 0 for n in (conv, 'optional', 'multi'))
+    multi_ret = [r for r in rets if has_cond(conds(bcv, r), lambda t: norm(t) == 'multi', True)]
+    single_ret = [r for r in rets if r not in multi_ret]
+    M.selection = stable_outer and len(multi_ret) == 1 and len(single_ret) == 1 and all(_stores(bcv.node, norm(r.value)) == 1 for r in rets)
+    M.why = 'build_converter does not select between a multi and a single converter on "multi"'
+    if M.selection:
+        M.mf, M.sf = inner[norm(multi_ret[0].value)], inner[norm(single_ret[0].value)]
+        for f in (M.mf, M.sf):
+            if len(f.params()) != 1 or f.node.args.vararg or f.node.args.kwarg:
+                raise AnalysisError('%s: expected a one-argument converter' % f.qualname)
+    M.conv = lambda f: conv
+    M.opt = lambda f: 'optional'
+    M.val = lambda f: f.params()[0]
+    M.frozen = lambda f: (conv, 'optional', f.params()[0])
+    return M
+
+
+_CLASS_HOOKS = ('__getattr__', '__getattribute__', '__setattr__', '__delattr__', '__new__', '__init_subclass__', '__slots__')
+
+
+def _class_model(repo, route, bcv, bp):
+    """``return K(converter, optional, multi)`` -- K a plain class of the module whose instances are called with the captured
+    text: __init__ stores the converter and the optional flag once, unconditionally, in instance attributes nothing else
+    writes; the function that runs is chosen on ``multi`` -- once, in __init__ (an instance attribute bound to one of two
+    methods), or at every call on an attribute holding ``multi``."""
+    conv = bp[0]
+    rets = returns_of(bcv)
+    if len(rets) != 1 or rets[0].value is None:
+        return None
+    call = _inline(bcv, rets[0].value)
+    if not (isinstance(call, ast.Call) and isinstance(call.func, ast.Name)) or call.func.id in _all_params(bcv) or _stores(bcv.node, call.func.id):
+        return None
+    kind, kmod, K = repo.resolve(route, call.func.id)
+    if kind != 'class' or K.mod is not route:
+        return None
+    what = 'build_converter returns an instance of %s' % K.name
+    if any(norm(b) != 'object' for b in K.node.bases) or K.node.keywords or K.node.decorator_list:
+        raise AnalysisError('%s, a class with bases / a metaclass / decorators: its attribute lookup is not followed' % what)
+    hooks = [h for h in _CLASS_HOOKS if h in K.methods or h in K.class_attrs]
+    if hooks:
+        raise AnalysisError('%s, which defines %s: its attribute lookup is not followed' % (what, hooks[0]))
+    init, callm = K.methods.get('__init__'), K.methods.get('__call__')
+    if init is None or callm is None:
+        raise AnalysisError('%s, which lacks __init__ / __call__' % what)
+    for f in K.methods.values():
+        if f.node.decorator_list or not f.params() or f.node.args.vararg or f.node.args.kwarg:
+            raise AnalysisError('%s: method %s is decorated / takes * or **: not followed' % (what, f.qualname))
+    if any(isinstance(n, ast.Call) and isinstance(n.func, ast.Name) and n.func.id in ('setattr', 'delattr', 'vars') for n in ast.walk(K.node)) or \
+            any(isinstance(n, ast.Attribute) and n.attr == '__dict__' for n in ast.walk(K.node)):
+        raise AnalysisError('%s, whose attributes are written reflectively' % what)
+    M = _ConvModel()
+    M.form, M.cls = 'callable class %s' % K.name, K
+    M.selection, M.why = False, ''
+    # -- what the constructor receives
+    if any(isinstance(a, ast.Starred) for a in call.args) or any(k.arg is None for k in call.keywords):
+        raise AnalysisError('%s built with * / ** arguments' % what)
+    ips = init.params()[1:]
+    got = dict(zip(ips, call.args))
+    if len(call.args) > len(ips) or any(k.arg in got or k.arg not in ips for k in call.keywords):
+        raise AnalysisError('%s: the constructor call does not fit %s' % (what, init.qualname))
+    got.update((k.arg, k.value) for k in call.keywords)
+    stable_outer = all(_stores(bcv.node, n) == 0 for n in (conv, 'optional', 'multi'))
+    role = {}
+    for r in (conv, 'optional', 'multi'):
+        ps = [p_ for p_, v in got.items() if isinstance(v, ast.Name) and v.id == r]
+        if len(ps) == 1 and _stores(init.node, ps[0]) == 0:
+            role[r] = ps[0]
+    if len(role) != 3 or not stable_outer:
+        M.why = 'build_converter does not hand %s to %s (each exactly once, unchanged)' % (
+            ' / '.join(r for r in (conv, 'optional', 'multi') if r not in role) or 'its parameters', K.name)
+        return M
+    # -- instance attributes: [(attribute, method, store node)]
+    writes = []
+    for f in K.methods.values():
+        me = f.params()[0]
+        for n in ast.walk(f.node):
+            if isinstance(n, ast.Attribute) and isinstance(n.ctx, (ast.Store, ast.Del)):
+                writes.append((n.attr, f, n, isinstance(n.value, ast.Name) and n.value.id == me))
+    # writes of attributes elsewhere in the module: a method of another class writing through its own ``self`` cannot reach
+    # an instance of K; any other write of an attribute of the same name (through an alias, from a function) is not followed
+    outside = []
+    for n in ast.walk(route.tree):
+        if isinstance(n, ast.Attribute) and isinstance(n.ctx, (ast.Store, ast.Del)) and not any(n is w[2] for w in writes):
+            fn = route.enclosing_function(n)
+            fi_ = route.func_of_node(fn) if fn is not None and not isinstance(fn, ast.Lambda) else None
+            if fi_ is not None and fi_.cls is not None and fi_.cls is not K and fi_.params() and isinstance(n.value, ast.Name) and \
+                    n.value.id == fi_.params()[0] and not _stores(fi_.node, n.value.id):
+                continue
+            outside.append(n)
+
+    def not_aliased(attr):
+        if any(n.attr == attr for n in outside) or any(w[0] == attr and not w[3] for w in writes):
+            raise AnalysisError('%s: attribute %s is also written through another name than self: not followed' % (what, attr))
+    ime = init.params()[0]
+    if _stores(init.node, ime) or any(isinstance(n, ast.Return) for n in walk_body(init.node)):
+        raise AnalysisError('%s.__init__ re-binds self / returns early: not followed' % K.name)
+
+    def field(param):
+        """the instance attribute that holds a constructor parameter: stored once in the whole class, by a top-level
+        statement of __init__, never written anywhere else in the module, not shadowed by a method of that name"""
+        cands = []
+        for st in init.node.body:
+            if isinstance(st, ast.Assign) and len(st.targets) == 1 and isinstance(st.targets[0], ast.Attribute) and \
+                    isinstance(st.targets[0].value, ast.Name) and st.targets[0].value.id == ime and isinstance(st.value, ast.Name) and st.value.id == param:
+                cands.append(st.targets[0].attr)
+        for a in cands:
+            not_aliased(a)
+        cands = [a for a in cands if sum(1 for w in writes if w[0] == a) == 1 and a not in K.methods]
+        return cands[0] if cands else None
+    M.conv_attr, M.opt_attr = field(role[conv]), field(role['optional'])
+    if M.conv_attr is None or M.opt_attr is None:
+        M.why = '%s does not keep the %s it was built with in an attribute written once' % (K.name, 'converter' if M.conv_attr is None else 'optional flag')
+        return M
+    # -- the function that runs
+    cps = callm.params()
+    if len(cps) != 2:
+        raise AnalysisError('%s: expected (self, value)' % callm.qualname)
+    cme, cv = cps
+    crets = returns_of(callm)
+    M.why = '%s.__call__ does not hand the captured text, unchanged, to the converter chosen on "multi"' % K.name
+
+    def applied(e):
+        """name of the attribute A when ``e`` is  self.A(value)"""
+        e = _inline(callm, e) if e is not None else None
+        if isinstance(e, ast.Call) and isinstance(e.func, ast.Attribute) and isinstance(e.func.value, ast.Name) and e.func.value.id == cme and \
+                len(e.args) == 1 and not e.keywords and isinstance(e.args[0], ast.Name) and e.args[0].id == cv:
+            return e.func.attr
+        return None
+    if _stores(callm.node, cv) or _stores(callm.node, cme) or any(isinstance(s_, ast.Try) for s_ in stmts_of(callm.node)):
+        return M
+    M.flag = None
+    M.conv = lambda f: '%s.%s' % (f.params()[0], M.conv_attr)
+    M.opt = lambda f: '%s.%s' % (f.params()[0], M.opt_attr)
+    M.val = lambda f: f.params()[1]
+    M.frozen = lambda f: tuple(f.params())
+    chosen = None       # (multi method name, single method name)
+    if len(crets) == 1 and applied(crets[0].value) is not None and not conds(callm, crets[0]):
+        # the choice is made once, in __init__: an instance attribute bound to one of two methods
+        S = applied(crets[0].value)
+        ws = [w for w in writes if w[0] == S]
+        not_aliased(S)
+        if S in K.methods or len(ws) != 2 or any(w[1] is not init for w in ws):
+            return M
+        picks = {}
+        for a, f, n, own in ws:
+            st = stmt_of(route, n)
+            cs = conds(init, st)
+            v = st.value if isinstance(st, ast.Assign) and len(st.targets) == 1 and st.targets[0] is n else None
+            if not (isinstance(v, ast.Attribute) and isinstance(v.value, ast.Name) and v.value.id == ime and len(cs) == 1 and norm(cs[0][0]) == role['multi']):
+                return M
+            picks[cs[0][1]] = v.attr
+        if set(picks) != {True, False}:
+            return M
+        icfg = cfg_of(init)
+        if not icfg.must_pass(icfg.nodes_of_all([stmt_of(route, w[2]) for w in ws]), icfg.entry, icfg.exit, normal_only=True):
+            return M
+        chosen = (picks[True], picks[False])
+    else:
+        # the choice is made at every call, on an attribute that holds ``multi``: every return stands under that test
+        mattr = field(role['multi'])
+        if mattr is None or not crets:
+            return M
+        flag = '%s.%s' % (cme, mattr)
+        side = lambda r: [p_ for t, p_ in conds(callm, r) if norm(t) == flag]
+        ccfg = cfg_of(callm)
+        if any(len(side(r)) != 1 for r in crets) or set(side(r)[0] for r in crets) != {True, False} or \
+                not ccfg.must_pass(ccfg.nodes_of_all(crets), ccfg.entry, ccfg.exit, normal_only=True):
+            return M
+        if len(crets) == 2 and all(applied(r.value) is not None and len(conds(callm, r)) == 1 for r in crets):
+            on = [r for r in crets if side(r)[0]]
+            off = [r for r in crets if not side(r)[0]]
+            chosen = (applied(on[0].value), applied(off[0].value))
+        else:
+            # ... and the two converters are written out in the arms of the test
+            M.flag, M.mf, M.sf, M.selection = flag, callm, callm, True
+            return M
+    for c in chosen or ():
+        not_aliased(c)
+    if chosen is None or chosen[0] == chosen[1] or any(c not in K.methods or any(w[0] == c for w in writes) for c in chosen):
+        return M
+    M.mf, M.sf = K.methods[chosen[0]], K.methods[chosen[1]]
+    for f in (M.mf, M.sf):
+        if len(f.params()) != 2:
+            raise AnalysisError('%s: expected (self, value)' % f.qualname)
+    M.selection = True
+    return M
+
+
 def _rule_e_converters(rep):
-    route = rep.repo.mod(ROUTE)
+    repo = rep.repo
+    route = repo.mod(ROUTE)
     bcv = route.func('build_converter')
     bp = bcv.params()
     if not bp or 'multi' not in bp or 'optional' not in bp:
         raise AnalysisError('build_converter: expected (converter, optional, multi)')
-    conv = bp[0]
-    stable_outer = all(_stores(bcv.node, n) == 0 for n in (conv, 'optional', 'multi'))
-    inner = dict((f.name, f) for q, f in route.functions.items() if q.startswith('build_converter.') and q.count('.') == 1)
-    rets = returns_of(bcv)
-    if len(rets) != 2 or not all(r.value is not None and norm(r.value) in inner for r in rets) or len(set(norm(r.value) for r in rets)) != 2:
-        raise AnalysisError('build_converter: expected two nested converter functions, one of which is returned (found: %s)' %
-                            ', '.join(short(r, 40) for r in rets))
-    multi_ret = [r for r in rets if has_cond(conds(bcv, r), lambda t: norm(t) == 'multi', True)]
-    single_ret = [r for r in rets if r not in multi_ret]
-    ok = stable_outer and len(multi_ret) == 1 and len(single_ret) == 1 and norm(multi_ret[0].value) in inner and norm(single_ret[0].value) in inner and \
-        all(_stores(bcv.node, norm(r.value)) == 1 for r in rets)
-    rep.check('R05.e', fkey(bcv, 'selection'), ok, 'multi selects the list converter, otherwise the single converter' if ok else
-              'build_converter does not select between a multi and a single converter on "multi"', route, bcv.node)
+    M = _closure_model(route, bcv, bp) or _class_model(repo, route, bcv, bp)
+    if M is None:
+        raise AnalysisError('build_converter: expected two nested converter functions, one of which is returned, or an instance of a callable '
+                            'class of the module (found: %s)' % ', '.join(short(r, 40) for r in returns_of(bcv)))
+    ok = bool(M.selection)
+    rep.check('R05.e', fkey(bcv, 'selection'), ok, 'multi selects the list converter, otherwise the single converter (%s)' % M.form if ok else
+              M.why or 'build_converter does not select between a multi and a single converter on "multi"', route, bcv.node)
     if not ok:
         return
-    mf, sf = inner[norm(multi_ret[0].value)], inner[norm(single_ret[0].value)]
-    for f in (mf, sf):
-        if len(f.params()) != 1:
-            raise AnalysisError('%s: expected a one-argument converter' % f.qualname)
-    local_ok = lambda f: all(_stores(f.node, n) == 0 for n in (conv, 'optional', f.params()[0])) and \
-        not any(isinstance(s, ast.Try) for s in stmts_of(f.node))
-    v = mf.params()[0]
-    empties = [r for r in returns_of(mf) if isinstance(r.value, ast.List) and not r.value.elts]
-    ok1 = local_ok(mf) and len(empties) == 1 and _optional_empty(mf, empties[0], v)
-    convr = [r for r in returns_of(mf) if r not in empties]
-    ok2 = local_ok(mf) and len(convr) == 1 and convr[0].value is not None and _list_of_conversions(mf, bcv, convr[0], v, conv)
-    rep.check('R05.e', fkey(mf, 'optional empty'), ok1, "an absent optional multi binding yields [] before any conversion" if ok1 else
+    mf, sf = M.mf, M.sf
+    local_ok = lambda f: all(_stores(f.node, n) == 0 for n in M.frozen(f)) and not any(isinstance(s, ast.Try) for s in stmts_of(f.node))
+
+    def arm(f, multi):
+        """the returns of the converter for that arity: all of the function's, or those in the arm of the arity test"""
+        if M.flag is None:
+            return returns_of(f)
+        return [r for r in returns_of(f) if has_cond(conds(f, r), lambda t: norm(t) == M.flag, multi)]
+    v, conv, opt = M.val(mf), M.conv(mf), M.opt(mf)
+    empties = [r for r in arm(mf, True) if isinstance(r.value, ast.List) and not r.value.elts]
+    ok1 = local_ok(mf) and len(empties) == 1 and _optional_empty(mf, empties[0], v, opt, M.flag)
+    convr = [r for r in arm(mf, True) if r not in empties]
+    ok2 = local_ok(mf) and len(convr) == 1 and convr[0].value is not None and _list_of_conversions(mf, M.outer, convr[0], v, conv)
+    tag = (lambda what, arity: what) if mf is not sf else (lambda what, arity: '%s (%s arm)' % (what, arity))
+    rep.check('R05.e', fkey(mf, tag('optional empty', 'multi')), ok1, "an absent optional multi binding yields [] before any conversion" if ok1 else
               'the multi converter does not return [] for an empty optional value', route, mf.node)
-    rep.check('R05.e', fkey(mf, 'list of conversions'), ok2, "a multi binding yields [converter(v) for v in value.split('/')[1:]]" if ok2 else
+    rep.check('R05.e', fkey(mf, tag('list of conversions', 'multi')), ok2, "a multi binding yields [converter(v) for v in value.split('/')[1:]]" if ok2 else
               "the multi converter is not [converter(v) for v in value.split('/')[1:]]", route, mf.node)
-    v = sf.params()[0]
-    nones = [r for r in returns_of(sf) if r.value is None or (isinstance(r.value, ast.Constant) and r.value.value is None)]
-    ok1 = local_ok(sf) and len(nones) == 1 and _optional_empty(sf, nones[0], v)
-    convr = [r for r in returns_of(sf) if r not in nones]
-    ok2 = local_ok(sf) and len(convr) == 1 and norm(_inline(sf, convr[0].value, outer=bcv)) in (
+    v, conv, opt = M.val(sf), M.conv(sf), M.opt(sf)
+    nones = [r for r in arm(sf, False) if r.value is None or (isinstance(r.value, ast.Constant) and r.value.value is None)]
+    ok1 = local_ok(sf) and len(nones) == 1 and _optional_empty(sf, nones[0], v, opt, M.flag)
+    convr = [r for r in arm(sf, False) if r not in nones]
+    ok2 = local_ok(sf) and len(convr) == 1 and norm(_inline(sf, convr[0].value, outer=M.outer)) in (
         "%s(%s.replace('/', ''))" % (conv, v), "%s(%s.lstrip('/'))" % (conv, v), "%s(%s.strip('/'))" % (conv, v))
-    rep.check('R05.e', fkey(sf, 'optional empty'), ok1, 'an absent optional single binding yields None before any conversion' if ok1 else
+    rep.check('R05.e', fkey(sf, tag('optional empty', 'single')), ok1, 'an absent optional single binding yields None before any conversion' if ok1 else
               'the single converter does not return None for an empty optional value', route, sf.node)
-    rep.check('R05.e', fkey(sf, 'conversion'), ok2, 'a single binding is converted from its segment without the separator' if ok2 else
+    rep.check('R05.e', fkey(sf, tag('conversion', 'single')), ok2, 'a single binding is converted from its segment without the separator' if ok2 else
               'the single converter does not strip the separator before converting', route, sf.node)
 
 
@@ -1296,6 +1644,25 @@ def _rule_e_bindings(rep, R, convs, pats):
         raise AnalysisError('BINDING regex: %s' % e)
     rep.check('R05.e', '%s::BINDING groups' % ROUTE, bool({'name', 'op', 'type'} <= set(gd)), 'BINDING exposes groups name / op / type' if {'name', 'op', 'type'} <= set(gd) else
               'BINDING lacks one of the groups name / op / type', route)
+    if {'name', 'op', 'type'} <= set(gd):
+        # the three pieces are told apart by character class, in the order name, operator, type; every documented form is a binding
+        try:
+            specs = (('name', r'\w+', 'word characters'), ('op', r'\W*', 'non-word characters'), ('type', r'\w*', 'word characters'))
+            for g, spec, what in specs:
+                ok, w = regexq.included(regexq.group_tree(b, g), spec)
+                rep.check('R05.e', '%s::BINDING group %s' % (ROUTE, g), ok, 'group %s consists of %s' % (g, what) if ok else
+                          'group %s of BINDING can capture %r: name, operator and type are no longer told apart by their characters' % (g, w), route)
+            ok = gd['name'] < gd['op'] < gd['type']
+            rep.check('R05.e', '%s::BINDING group order' % ROUTE, ok, 'the groups come in the order name, op, type' if ok else
+                      'the groups of BINDING do not come in the order name, op, type', route)
+            ops = '|'.join(re.escape(o) for o in sorted(DOC_QUANT) + [':'] if o)
+            types = '|'.join(sorted(convs)) if convs else 'int|float|str|unicode'
+            canon = r'<[A-Za-z_][A-Za-z0-9_]*(%s)?(%s)?>' % (ops, types)
+            ok, w = regexq.included(canon, b)
+            rep.check('R05.e', '%s::BINDING accepts the documented forms' % ROUTE, ok, 'every <name>, <name OP>, <name OP type> is recognised as a binding' if ok else
+                      'BINDING does not recognise %r as a binding: it is compiled as a literal segment' % w, route)
+        except AnalysisError as e:
+            raise AnalysisError('BINDING regex: %s' % e)
     # each role is fed from the group of the same name: the name put into the segment and every key recorded in the converter
     # map, the key of the type tables, the quantifier -- whether held in a variable, a copy of it, or read off the match in place
     def group_of_value(e, role):
@@ -1332,6 +1699,403 @@ def _rule_e_bindings(rep, R, convs, pats):
                         ['key %s <- %s' % (short(key, 30), 'group %r' % g if g else 'not a group') for key, g in keys if g != 'name']), route, cp.node)
 
 
+# ---- R05.g ------------------------------------------------------------------------------------------
+
+def _rule_g_segments(rep, R):
+    """The list handed to ``sep.join`` holds, in order, one element per literal part of the pattern -- the part itself -- with
+    the segment of every binding glued to the element before it; outside strict mode a trailing empty element (pattern
+    ending in '/') is dropped, in strict mode nothing is.  List and converter map are created by the call that fills them."""
+    repo = rep.repo
+    route, cp, ccfg = R.route, R.cp, R.cfg
+    if not isinstance(R.loop, ast.For) or not isinstance(R.loop.target, ast.Name):
+        raise AnalysisError('_compile_path_pattern: the loop over the parts of the pattern was not found')
+    part = R.loop.target.id
+    params = _all_params(cp)
+    in_loop = set(id(x) for x in ast.walk(R.loop))
+    # -- the joined list, under all its names
+    joins = [c for c in walk_body(cp.node) if isinstance(c, ast.Call) and isinstance(c.func, ast.Attribute) and c.func.attr == 'join' and len(c.args) == 1 and
+             not c.keywords and isinstance(c.args[0].value if isinstance(c.args[0], ast.Subscript) else c.args[0], ast.Name) and
+             not (isinstance(c.func.value, ast.Constant) and c.func.value.value == '')]
+    if not joins:
+        raise AnalysisError('_compile_path_pattern: the join of the processed segments was not found')
+    names, todo = set(), [(c.args[0].value if isinstance(c.args[0], ast.Subscript) else c.args[0]).id for c in joins]
+    inits, foreign = [], []
+    while todo:
+        n = todo.pop()
+        if n in names:
+            continue
+        names.add(n)
+        if n in params or _stores(cp.node, n) == 0:
+            foreign.append(n)
+            continue
+        for st, val in _defs(cp, n):
+            base = val.value if isinstance(val, ast.Subscript) and isinstance(val.slice, ast.Slice) else val
+            if val is not None and _is_empty_display(val, 'list'):
+                inits.append(st)
+            elif isinstance(base, ast.Name):
+                todo.append(base.id)
+            else:
+                foreign.append(n)
+    fresh = not foreign and len(inits) == 1 and id(inits[0]) not in in_loop and \
+        ccfg.must_pass(ccfg.nodes_of(inits[0]), ccfg.entry, ccfg.nodes_of(R.loop))
+    rep.check('R05.g', fkey(cp, 'segment list created per call'), fresh, 'the list of processed segments starts empty in every call' if fresh else
+              'the list of processed segments is not an empty list created by this call before the loop (%s): segments of earlier patterns / '
+              'other content end up in the expression' % (', '.join(sorted(set(foreign))) or 'no single empty-list initialisation'), route, inits[0] if inits else cp.node)
+    # -- the parts
+    it = _inline(cp, R.loop.iter)
+    ok = norm(it) == "%s.split('/')" % R.pvar and not _stores(cp.node, R.pvar) and _stores(cp.node, part) == 1 and not R.loop.orelse
+    rep.check('R05.g', fkey(cp, 'parts of the pattern'), ok, "the loop visits every part of pattern.split('/')" if ok else
+              "the loop does not visit exactly the parts of %s.split('/') (iterates %s)" % (R.pvar, short(R.loop.iter, 50)), route, R.loop)
+    # -- every use of the list
+    is_L = lambda e: isinstance(e, ast.Name) and e.id in names
+    is_last = lambda e: isinstance(e, ast.Subscript) and is_L(e.value) and _is_minus_one(e.slice)
+    appends, glues, trims, others = [], [], [], []
+    for st in stmts_of(cp.node):
+        if isinstance(st, (ast.For, ast.AsyncFor, ast.While, ast.If, ast.Try, ast.With, ast.AsyncWith, ast.FunctionDef, ast.ClassDef)):
+            continue
+        uses = [x for x in ast.walk(st) if is_L(x)]
+        if not uses or st in inits:
+            continue
+        if isinstance(st, ast.Expr) and isinstance(st.value, ast.Call) and isinstance(st.value.func, ast.Attribute) and is_L(st.value.func.value) and \
+                st.value.func.attr == 'append' and len(st.value.args) == 1 and not st.value.keywords and len(uses) == 1:
+            appends.append(st)
+        elif isinstance(st, ast.AugAssign) and isinstance(st.op, ast.Add) and is_last(st.target) and len(uses) == 1:
+            glues.append((st, st.value))
+        elif isinstance(st, ast.Assign) and len(st.targets) == 1 and is_last(st.targets[0]) and isinstance(st.value, ast.BinOp) and isinstance(st.value.op, ast.Add) and \
+                is_last(st.value.left) and norm(st.value.left) == norm(st.targets[0]) and len(uses) == 2:
+            glues.append((st, st.value.right))
+        elif _drops_last(st) in names and len(uses) == 1:
+            trims.append(st)
+        else:
+            # reads: the join, tests of the last element, plain copies / [:-1] views bound to another name of the list
+            rest = list(uses)
+            for x in ast.walk(st):
+                if isinstance(x, ast.Call) and any(x is j for j in joins):
+                    rest = [u for u in rest if not any(u is y for y in ast.walk(x.args[0]))]
+            if isinstance(st, ast.Assign):
+                pairs = [(st.targets[0], st.value)] if len(st.targets) == 1 else []
+                if pairs and isinstance(pairs[0][0], (ast.Tuple, ast.List)) and isinstance(pairs[0][1], (ast.Tuple, ast.List)) and \
+                        len(pairs[0][0].elts) == len(pairs[0][1].elts):
+                    pairs = list(zip(pairs[0][0].elts, pairs[0][1].elts))
+                for t, v in pairs:
+                    base = v.value if isinstance(v, ast.Subscript) and isinstance(v.slice, ast.Slice) else v
+                    if is_L(t) and is_L(base):
+                        rest = [u for u in rest if u is not t and u is not base]
+                        if base is not v:
+                            trims.append(st)
+            if rest:
+                others.append(st)
+    for j in joins:
+        a = j.args[0]
+        if isinstance(a, ast.Subscript):
+            sl = a.slice
+            if isinstance(sl, ast.Slice) and sl.lower is None and sl.step is None and _is_minus_one(sl.upper):
+                trims.append(stmt_of(route, j))
+            else:
+                others.append(stmt_of(route, j))      # some other part of the list is joined
+    # tests ``not L[-1]`` live in if-heads, not in simple statements: any other mention inside a compound head is looked at here
+    for st in stmts_of(cp.node):
+        if isinstance(st, (ast.If, ast.While)):
+            for x in ast.walk(st.test):
+                if is_L(x) and not is_last(route.parents.get(x)):
+                    others.append(st)
+        elif isinstance(st, (ast.For, ast.AsyncFor)):
+            if any(is_L(x) for x in ast.walk(st.iter)) or any(is_L(x) for x in ast.walk(st.target)):
+                others.append(st)
+    ok = not others
+    rep.check('R05.g', fkey(cp, 'segment list only appended to / glued / trimmed'), ok, 'nothing else changes the list of processed segments' if ok else
+              'the list of processed segments is also used in %s: not an append of a literal part, a glued binding segment, the trailing trim or the join' %
+              short(others[0], 60), route, others[0] if others else cp.node)
+    mtext = 'BINDING.match(%s)' % part
+    # facts established inside the loop (the guards before the loop hold for every part alike); tests of the match object are
+    # read through the local that names it
+    loop_facts = lambda st: [(t, pol) for t, pol in conds(cp, st) if id(t) in in_loop]
+    facts = lambda st: [(_inline(cp, t, stable=(part,)), pol) for t, pol in loop_facts(st)]
+    lit = [a for a in appends if id(a) in in_loop]
+    ok = len(lit) == 1 and len(appends) == 1 and norm(_inline(cp, lit[0].value.args[0], stable=(part,))) == part and implies_absent(facts(lit[0]), mtext) and \
+        all(implies_absent([f], mtext) or (isinstance(f[0], ast.BoolOp)) for f in facts(lit[0]))
+    rep.check('R05.g', fkey(cp, 'literal part kept verbatim'), ok, 'a part that is not a binding enters the expression as it is' if ok else
+              'a literal part of the pattern does not enter the list of segments unchanged and unconditionally (%s)' %
+              (short(appends[0], 60) if appends else 'no append found'), route, appends[0] if appends else R.loop)
+    seg = [g for g in glues if id(g[0]) in in_loop]
+    is_seg = lambda v: v is R.fc or (isinstance(v, ast.Name) and _single_def(cp, v.id) is R.fc)
+    ok = len(seg) == 1 and len(glues) == 1 and is_seg(seg[0][1]) and implies_present(facts(seg[0][0]), mtext)
+    rep.check('R05.g', fkey(cp, 'binding segment glued to the element before it'), ok, 'the segment of a binding is added to the element before it' if ok else
+              'the segment built for a binding is not glued (+=) onto the last element of the list (%s)' %
+              (short(glues[0][0], 60) if glues else 'no "segments[-1] += segment" found'), route, glues[0][0] if glues else R.fc)
+    iter_nodes = [n.id for n in ccfg.nodes if n.kind == 'iter' and n.stmt is R.loop]
+    contributes = [x for x in lit] + [g[0] for g in seg]
+    ok = bool(contributes) and ccfg.must_pass(ccfg.nodes_of_all(contributes), iter_nodes, ccfg.nodes_of(R.loop), normal_only=True)
+    rep.check('R05.g', fkey(cp, 'every part contributes'), ok, 'every part of the pattern ends up in the list' if ok else
+              'some parts of the pattern are skipped (an iteration can end without appending / gluing)', route, R.loop)
+    # -- converter map: fresh, every binding recorded
+    vdefs = _defs(cp, R.vcm)
+    ok = R.vcm not in params and len(vdefs) == 1 and vdefs[0][1] is not None and _is_empty_display(vdefs[0][1], 'dict') and id(vdefs[0][0]) not in in_loop and \
+        ccfg.must_pass(ccfg.nodes_of(vdefs[0][0]), ccfg.entry, ccfg.nodes_of(R.loop))
+    rep.check('R05.g', fkey(cp, 'converter map created per call'), ok, 'the converter map starts empty in every call' if ok else
+              'the converter map is not an empty dict created by this call: bindings of earlier patterns stay in it (duplicates are reported '
+              'across routes, routes receive foreign converters)', route, vdefs[0][0] if vdefs else cp.node)
+    stores = [st for st, key in _item_stores(cp, R.vcm)]
+    ok = len(stores) == 1 and bool(lit) and ccfg.must_pass(ccfg.nodes_of_all(stores + lit), iter_nodes, ccfg.nodes_of(R.loop), normal_only=True)
+    rep.check('R05.g', fkey(cp, 'every binding recorded'), ok, 'every binding gets its converter' if ok else
+              'a binding can be compiled into the expression without a converter being recorded for it', route, stores[0] if stores else R.loop)
+    # -- trailing empty element: trimmed exactly outside strict mode, exactly when empty
+    try:
+        strict_value = route.const('S_STRICT')
+    except Exception as e:
+        raise AnalysisError('cannot fold S_STRICT: %s' % e)
+    join_stmts = [stmt_of(route, j) for j in joins]
+    found = {}      # strict? -> set of trims seen in the joined list on returning paths
+    trim_envs = []
+    for strict in (True, False):
+        ex = _SymExec(repo, cp, R.mode, strict_value, strict)
+        ex.watch = list(trims)
+        found[strict] = set()
+        for val, env in ex.returns():
+            rx = val[1][0] if val[0] == 't' and len(val[1]) == 2 else None
+            toks = rx[1][1] if rx is not None and rx[0] == 're' and rx[1][0] == 's' else ()
+            js = [t for t in toks if t[0] == 'join']
+            if len(js) != 1 or len(js[0]) < 4:
+                raise AnalysisError('_compile_path_pattern: the list joined into the compiled expression cannot be followed (%s)' % _show(rx[1] if rx else val))
+            found[strict].add(js[0][3][1])
+            if not strict:
+                trim_envs += [(st, e2) for st, e2 in env.get('$seen', ())]
+    ok = found[True] == {0}
+    rep.check('R05.g', fkey(cp, 'strict mode keeps every element'), ok, 'in strict mode the list is joined as it is' if ok else
+              'in strict mode the last element of the list is dropped before the join: a pattern ending in "/" then also matches the path '
+              'without the slash', route, trims[0] if trims else cp.node)
+    # outside strict mode: both outcomes occur, and the trim stands under exactly one fact the mode does not decide: the last element is empty
+    exact = bool(trim_envs)
+    top = R.loop
+    while route.parents.get(top) is not cp.node and route.parents.get(top) is not None:
+        top = route.parents.get(top)
+    after_loop = set(id(x) for st_ in cp.node.body[cp.node.body.index(top) + 1:] for x in ast.walk(st_)) if top in cp.node.body else set()
+    for st, env in trim_envs:
+        ex = _SymExec(repo, cp, R.mode, strict_value, False)
+        open_ = []
+        for t, pol in conds(cp, st):
+            if isinstance(t, ast.BoolOp) and ((isinstance(t.op, ast.And) and pol is True) or (isinstance(t.op, ast.Or) and pol is False)):
+                continue
+            if ex.ev(t, env)[0] != 'b' and (id(t) in after_loop or any(is_L(x) for x in ast.walk(t))):
+                open_.append((t, pol))
+        unrelated = [(t, pol) for t, pol in open_ if not any(is_L(x) for x in ast.walk(t))]
+        if unrelated:
+            raise AnalysisError('_compile_path_pattern: cannot tell whether "%s" means that the last element of the list is empty' % cond_texts(unrelated)[0])
+        last_empty = lambda t, pol: (is_last(t) and pol is False) or \
+            (isinstance(t, ast.Compare) and len(t.ops) == 1 and is_last(t.left) and isinstance(t.comparators[0], ast.Constant) and t.comparators[0].value == '' and
+             ((isinstance(t.ops[0], ast.Eq) and pol is True) or (isinstance(t.ops[0], ast.NotEq) and pol is False)))
+        if len(open_) != 1 or not last_empty(*open_[0]):
+            exact = False
+        else:
+            t = open_[0][0]
+            held = env.get((t if is_last(t) else t.left).value.id, ('?',))
+            if held[0] != 'L' or held[2] != 0:
+                exact = False
+    ok = found[False] == {0, 1} and exact
+    rep.check('R05.g', fkey(cp, 'trailing empty element dropped outside strict mode'), ok,
+              'outside strict mode a trailing empty element is dropped (the trailing "/*" stands for it), and only then' if ok else
+              'outside strict mode the last element of the list is not dropped exactly when it is empty (joined without its last %s element(s)%s)' %
+              (' or '.join(str(k) for k in sorted(found[False])), '' if exact or not trim_envs else '; the trim is not guarded by "the last element is empty" alone'),
+              route, trims[0] if trims else cp.node)
+    # -- the duplicate test looks at every binding
+    dups = [r for r in raises_of(cp) if raise_type(r) == 'InvalidPattern' and
+            (has_cond(conds(cp, r), lambda t: isinstance(t, ast.Compare) and len(t.ops) == 1 and isinstance(t.ops[0], ast.In) and norm(t.comparators[0]) == R.vcm, True) or
+             has_cond(conds(cp, r), lambda t: isinstance(t, ast.Compare) and len(t.ops) == 1 and isinstance(t.ops[0], ast.NotIn) and norm(t.comparators[0]) == R.vcm, False))]
+    if dups:
+        extra = [(t, pol) for t, pol in loop_facts(dups[0]) if not (
+            isinstance(t, ast.BoolOp) or implies_present([(_inline(cp, t, stable=(part,)), pol)], mtext) or
+            (isinstance(t, ast.Compare) and len(t.ops) == 1 and isinstance(t.ops[0], (ast.In, ast.NotIn)) and norm(t.comparators[0]) == R.vcm))]
+        ok = not extra
+        rep.check('R05.g', fkey(cp, 'duplicate test for every binding'), ok, 'every binding name is tested against the names seen so far' if ok else
+                  'the duplicate-binding test is skipped for some bindings (also requires %s)' % ', '.join(cond_texts(extra)), route, dups[0])
+    rep.floor('R05.g', 10)
+
+
+# ---- R05.h ------------------------------------------------------------------------------------------
+
+def _rule_h_result(rep):
+    """What a match hands to the endpoint: a mapping with, for every (name, converter) of self.converters, the converter applied
+    once to the text the regex captured for the group of that name."""
+    route = rep.repo.mod(ROUTE)
+    mp = route.func('BoundRoute.match_path')
+    ps = mp.params()
+    if len(ps) < 2:
+        raise AnalysisError('match_path: expected (self, path)')
+    me, pathp = ps[0], ps[1]
+    M = '%s.regex.match(%s)' % (me, pathp)
+    CONVS = '%s.converters' % me
+
+    def group_read(e, n):
+        t = norm(_inline(mp, e, stable=(n,)))
+        return t in ('%s.groupdict()[%s]' % (M, n), '%s.groupdict().get(%s)' % (M, n), '%s.group(%s)' % (M, n), '%s[%s]' % (M, n))
+
+    def conversion(e, n, c):
+        """``e`` is  c(<group n>)  with c the converter that goes with n"""
+        if not (isinstance(e, ast.Call) and len(e.args) == 1 and not e.keywords and not isinstance(e.args[0], ast.Starred)):
+            return False
+        f = norm(_inline(mp, e.func, stable=(n,) + ((c,) if c else ())))
+        return (f == c if c else f == '%s[%s]' % (CONVS, n)) and group_read(e.args[0], n)
+
+    def iteration(target, it):
+        """(name variable, converter variable or None) when the loop / generator runs over the converters"""
+        t = norm(_inline(mp, it))
+        if t == CONVS + '.items()' and isinstance(target, (ast.Tuple, ast.List)) and len(target.elts) == 2 and all(isinstance(x, ast.Name) for x in target.elts):
+            return target.elts[0].id, target.elts[1].id
+        if t in (CONVS, CONVS + '.keys()', 'list(%s)' % CONVS, 'sorted(%s)' % CONVS) and isinstance(target, ast.Name):
+            return target.id, None
+        return None
+    built = []      # (node, ok, how)
+    for node in walk_body(mp.node):
+        pair = None
+        if isinstance(node, ast.DictComp):
+            gens, pair = node.generators, (node.key, node.value)
+        elif isinstance(node, ast.Call) and isinstance(node.func, ast.Name) and node.func.id == 'dict' and len(node.args) == 1 and not node.keywords:
+            # dict(<pairs>): the pairs written in place or named first (a local bound once to the comprehension)
+            src = node.args[0]
+            if isinstance(src, ast.Name) and _single_def(mp, src.id) is not None:
+                src = _single_def(mp, src.id)
+            if isinstance(src, (ast.ListComp, ast.GeneratorExp)) and isinstance(src.elt, (ast.Tuple, ast.List)) and len(src.elt.elts) == 2:
+                gens, pair = src.generators, tuple(src.elt.elts)
+        if pair is not None:
+            it = iteration(gens[0].target, gens[0].iter) if len(gens) == 1 and not gens[0].ifs and not gens[0].is_async else None
+            if it is None and not any(CONVS in norm(_inline(mp, g.iter)) for g in gens):
+                continue
+            ok = it is not None and isinstance(pair[0], ast.Name) and pair[0].id == it[0] and conversion(pair[1], it[0], it[1])
+            built.append((node, ok, 'comprehension'))
+        elif isinstance(node, (ast.For, ast.AsyncFor)) and CONVS in norm(_inline(mp, node.iter)):
+            it = iteration(node.target, node.iter)
+            stores = [s for s in stmts_of(node) if isinstance(s, (ast.Assign, ast.AugAssign)) and
+                      any(isinstance(t, ast.Subscript) for t in (s.targets if isinstance(s, ast.Assign) else [s.target]))]
+            ok = it is not None and len(stores) == 1 and isinstance(stores[0], ast.Assign) and len(stores[0].targets) == 1 and stores[0] in node.body and \
+                not node.orelse and all(isinstance(b, (ast.Assign, ast.Expr)) for b in node.body)
+            D = None
+            if ok:
+                tgt = stores[0].targets[0]
+                D = tgt.value.id if isinstance(tgt.value, ast.Name) else None
+                d0 = _single_def(mp, D) if D else None
+                ok = D is not None and isinstance(tgt.slice, ast.Name) and tgt.slice.id == it[0] and conversion(stores[0].value, it[0], it[1]) and \
+                    d0 is not None and _is_empty_display(d0, 'dict') and len(_item_stores(mp, D)) == 1 and \
+                    not any(isinstance(c_, ast.Call) and isinstance(c_.func, ast.Attribute) and norm(c_.func.value) == D and c_.func.attr in _MUTATORS for c_ in walk_body(mp.node)) and \
+                    all(_stores(mp.node, v) == 1 for v in it if v)
+            built.append((node, ok, D))
+    if len(built) != 1:
+        raise AnalysisError('match_path: the mapping of converted values was not found (%d candidates)' % len(built))
+    node, ok, how = built[0]
+    rep.check('R05.h', fkey(mp, 'every binding converted under its own name'), ok,
+              'result[name] = converter(captured text of group name), for every (name, converter) of self.converters' if ok else
+              'match_path does not map every binding name to its converter applied (once) to the text captured for that name', route, node)
+    # ... and that mapping is what a match returns
+    rets = [r for r in returns_of(mp) if not (r.value is None or (isinstance(r.value, ast.Constant) and r.value.value is None))]
+    if isinstance(node, (ast.For, ast.AsyncFor)):
+        good = [r for r in rets if isinstance(r.value, ast.Name) and r.value.id == how]
+    else:
+        good = [r for r in rets if r.value is node or (isinstance(r.value, ast.Name) and _single_def(mp, r.value.id) is node)]
+    mcfg = cfg_of(mp)
+    ok = len(rets) == 1 and len(good) == 1 and (not isinstance(node, (ast.For, ast.AsyncFor)) or
+                                                mcfg.must_pass(mcfg.nodes_of(node), mcfg.entry, mcfg.nodes_of(good[0])))
+    rep.check('R05.h', fkey(mp, 'a match returns the converted values'), ok, 'the mapping of converted values is what a match returns' if ok else
+              'match_path returns something else than the mapping of converted values (%s)' % ', '.join(short(r, 40) for r in rets), route, rets[0] if rets else mp.node)
+    rep.floor('R05.h', 2)
+
+
+# ---- R05.i ------------------------------------------------------------------------------------------
+
+MODE_OPTION = 'inherit_slashes'
+
+
+def _rule_i_mode_option(rep):
+    """Which slash mode a route is compiled with is decided by ``inherit_slashes`` -- an option that travels, inside **kwargs, from
+    where it is declared (the caller's keyword, the ``inherit_slashes`` attribute of a sub-application) through bind_all() / bind()
+    to BoundRoute.  Every station uses setdefault, so the first value wins: a function that hands the option on to *another*
+    object's bind() / bind_all() may put in a value read from a declaration (``x.inherit_slashes``, ``getattr(x, 'inherit_slashes',
+    d)``, its own parameter), never a literal -- a literal placed upstream silences the declaration downstream."""
+    repo = rep.repo
+    n = 0
+    for modname in ('clastic.application', ROUTE):
+        mod = repo.mod(modname)
+        for q, fi in sorted(mod.functions.items()):
+            me = fi.params()[0] if fi.cls is not None and fi.params() else None
+
+            def option_key(k):
+                """'' when ``k`` is the constant 'inherit_slashes'; the variable's name when it is the variable of a loop over a literal
+                tuple / list of option names that contains it (``for opt in ('rebind_render', 'inherit_slashes')``); else None"""
+                if isinstance(k, ast.Constant):
+                    return '' if k.value == MODE_OPTION else None
+                if isinstance(k, ast.Name) and _stores(fi.node, k.id) == 1:
+                    cur = mod.parents.get(k)
+                    while cur is not None and cur is not fi.node:
+                        if isinstance(cur, ast.For) and isinstance(cur.target, ast.Name) and cur.target.id == k.id:
+                            it = repo.try_fold(cur.iter, mod, default=None) if not isinstance(cur.iter, (ast.Tuple, ast.List)) else \
+                                [e_.value if isinstance(e_, ast.Constant) else None for e_ in cur.iter.elts]
+                            return k.id if isinstance(it, (list, tuple)) and MODE_OPTION in it else None
+                        cur = mod.parents.get(cur)
+                return None
+            sites = []      # (node, name of the dict or None for a keyword of the forwarding call itself, value expression, key variable or '')
+            for x in walk_body(fi.node):
+                if isinstance(x, ast.Call) and isinstance(x.func, ast.Attribute) and isinstance(x.func.value, ast.Name) and x.args and \
+                        x.func.attr == 'setdefault' and option_key(x.args[0]) is not None:
+                    sites.append((x, x.func.value.id, x.args[1] if len(x.args) > 1 else ast.Constant(value=None), option_key(x.args[0])))
+                elif isinstance(x, ast.Call) and isinstance(x.func, ast.Attribute) and isinstance(x.func.value, ast.Name) and x.func.attr == 'update' and \
+                        any(k.arg == MODE_OPTION for k in x.keywords):
+                    sites.append((x, x.func.value.id, [k.value for k in x.keywords if k.arg == MODE_OPTION][0], ''))
+                elif isinstance(x, ast.Subscript) and isinstance(x.ctx, ast.Store) and isinstance(x.value, ast.Name) and option_key(x.slice) is not None:
+                    st = stmt_of(mod, x)
+                    v = st.value if isinstance(st, ast.Assign) and len(st.targets) == 1 and st.targets[0] is x else None
+                    sites.append((x, x.value.id, v, option_key(x.slice)))
+                elif isinstance(x, ast.Call) and any(k.arg == MODE_OPTION for k in x.keywords) and not (isinstance(x.func, ast.Name) and x.func.id == 'dict') and \
+                        (call_tail(x) in ('bind', 'bind_all') or any(k.arg is None for k in x.keywords)):
+                    sites.append((x, None, [k.value for k in x.keywords if k.arg == MODE_OPTION][0], ''))
+                elif isinstance(x, ast.Call) and isinstance(x.func, ast.Name) and x.func.id == 'dict' and any(k.arg == MODE_OPTION for k in x.keywords):
+                    d = _bound_var(mod, x)
+                    if d is not None:
+                        sites.append((x, d, [k.value for k in x.keywords if k.arg == MODE_OPTION][0], ''))
+                elif isinstance(x, ast.Dict) and any(isinstance(k, ast.Constant) and k.value == MODE_OPTION for k in x.keys if k is not None):
+                    d = _bound_var(mod, x)
+                    if d is not None:
+                        sites.append((x, d, [v for k, v in zip(x.keys, x.values) if isinstance(k, ast.Constant) and k.value == MODE_OPTION][0], ''))
+
+            def foreign(call):
+                """the call binds through another object than the one this method belongs to (``rf.bind_all(...)``, or a local that
+                names such a bound method); ``self.x(...)`` / ``super().x(...)`` stay with the declaring object"""
+                f = call.func
+                if isinstance(f, ast.Name):
+                    d = _single_def(fi, f.id)
+                    if isinstance(d, ast.Attribute):
+                        f = d
+                    elif isinstance(d, ast.Call) and isinstance(d.func, ast.Name) and d.func.id == 'getattr' and d.args:
+                        r = d.args[0]
+                        return not (isinstance(r, ast.Name) and r.id == me)
+                    else:
+                        return f.id not in ('dict',)
+                if not isinstance(f, ast.Attribute):
+                    return True
+                r = f.value
+                if isinstance(r, ast.Call) and norm(r.func) == 'super':
+                    return False
+                return not (isinstance(r, ast.Name) and r.id == me)
+            for node, d, v, keyvar in sites:
+                if d is None:
+                    fwd = [node]
+                else:
+                    fwd = [c for c in walk_body(fi.node) if isinstance(c, ast.Call) and
+                           any(k.arg is None and isinstance(k.value, ast.Name) and k.value.id == d for k in c.keywords)]
+                if not any(foreign(c) for c in fwd):
+                    continue
+                n += 1
+                e = _inline(fi, v, stable=(keyvar,) if keyvar else ()) if v is not None else None
+                names_it = lambda a: (isinstance(a, ast.Constant) and a.value == MODE_OPTION) or (bool(keyvar) and isinstance(a, ast.Name) and a.id == keyvar)
+                declared = e is not None and (
+                    (isinstance(e, ast.Attribute) and e.attr == MODE_OPTION and not keyvar) or
+                    (isinstance(e, ast.Call) and isinstance(e.func, ast.Name) and e.func.id == 'getattr' and len(e.args) >= 2 and names_it(e.args[1])) or
+                    (isinstance(e, ast.Name) and e.id in _all_params(fi) and not _stores(fi.node, e.id) and not keyvar))
+                rep.check('R05.i', fkey(fi, '%s handed on' % MODE_OPTION), declared,
+                          '%s hands on an %s read from a declaration (%s)' % (fi.qualname, MODE_OPTION, short(v, 50)) if declared else
+                          '%s puts the literal %s into the %s it hands on to another object\'s bind(): the value declared by that object (a '
+                          'sub-application created with %s=...) never takes effect, its routes are compiled for the wrong slash mode' %
+                          (fi.qualname, short(v, 30) if v is not None else '?', MODE_OPTION, MODE_OPTION), mod, node)
+    rep.floor('R05.i', 2)
+
+
 # ---- R05.f ------------------------------------------------------------------------------------------
 
 def _rule_f(rep, pats, seg):
@@ -1356,7 +2120,8 @@ def _rule_f(rep, pats, seg):
 
 def run(rep):
     rep.decide('R05.a type tables and pattern constants; R05.b operator tables vs quantifiers; R05.c five rejections; '
-               'R05.d anchoring / separators / no-raise matching; R05.e converter shapes; R05.f segment structure (automata)')
+               'R05.d anchoring / separators / no-raise matching; R05.e converter shapes; R05.f segment structure (automata); '
+               'R05.g construction of the joined list of segments and of the converter map; R05.h the mapping a match returns')
     rep.decline('pattern x path matching semantics as a whole (language of a regex assembled at run time); greedy '
                 'backtracking between adjacent bindings; conversion values')
     rep.assume('re._parser gives the syntax tree the re module compiles')
@@ -1366,6 +2131,9 @@ def run(rep):
     rep.rule('R05.d', "'^'...'$', separators per mode, handlers in match_path")
     rep.rule('R05.e', 'build_converter branches')
     rep.rule('R05.f', 'language equality of the instantiated segment template with an independent specification')
+    rep.rule('R05.g', 'construction of the joined list: fresh per call, one element per literal part, binding segments glued, trailing trim per mode')
+    rep.rule('R05.h', 'match_path: result[name] = converter(group name) for every converter; that mapping is returned')
+    rep.rule('R05.i', 'provenance of the inherit_slashes option on its way to BoundRoute: read from a declaration wherever it is handed on')
     rep.repo.mod(ROUTE)          # anchor module: its absence is an analysis error of the whole property
 
     tt = _guarded(rep, _type_tables, rep)
@@ -1379,11 +2147,15 @@ def run(rep):
         _guarded(rep, _rule_d_compiled, rep, R)
     _guarded(rep, _rule_d_matching, rep)
     if not rep.gaps:
-        rep.floor('R05.d', 9)
+        rep.floor('R05.d', 10)
     _guarded(rep, _rule_e_converters, rep)
     if R is not None and pats is not None:
         _guarded(rep, _rule_e_bindings, rep, R, convs, pats)
     if not rep.gaps:
-        rep.floor('R05.e', 8)
+        rep.floor('R05.e', 13)
     if pats is not None and tabs is not None:
         _guarded(rep, _rule_f, rep, pats, tabs[2])
+    if R is not None:
+        _guarded(rep, _rule_g_segments, rep, R)
+    _guarded(rep, _rule_h_result, rep)
+    _guarded(rep, _rule_i_mode_option, rep)
